@@ -1,7 +1,6 @@
 from __future__ import annotations
 
 import copy
-import operator
 
 from datetime import date
 from datetime import datetime
@@ -360,16 +359,18 @@ class Interval(Duration, Generic[_T]):
 
     def range(self, unit: str, amount: int = 1) -> Iterator[_T]:
         method = "add"
-        op = operator.le
+        backwards = False
         if not self._absolute and self.invert:
             method = "subtract"
-            op = operator.ge
+            backwards = True
 
         start, end = self.start, self.end
 
         i = amount
         previous = None
-        while op(start, end):
+        # Not beyond the end on the time line (around a repeated hour
+        # that is not the order of the wall clock times)
+        while not (_is_later(end, start) if backwards else _is_later(start, end)):
             # A step that lands on a day which does not exist in the timezone
             # (a whole day skipped) is moved onto the next value: yield it once
             if previous is None or not _is_same(start, previous):
@@ -396,7 +397,7 @@ class Interval(Duration, Generic[_T]):
         return self.range("days")
 
     def __contains__(self, item: _T) -> bool:
-        return self.start <= item <= self.end
+        return not _is_later(self.start, item) and not _is_later(item, self.end)
 
     def __add__(self, other: timedelta) -> Duration:  # type: ignore[override]
         return self.as_duration().__add__(other)
